@@ -681,9 +681,9 @@ class Collection(object):
                     continue
                 # For upsert operation we have first to create a fake existing_document,
                 # update it like a regular one, then finally insert it
-                if spec.get('_id') is not None:
+                if '_id' in spec:
                     _id = spec['_id']
-                elif document.get('_id') is not None:
+                elif '_id' in document:
                     _id = document['_id']
                 else:
                     _id = ObjectId()
